@@ -10,6 +10,7 @@ package harness
 // possible table explains what was observed.
 
 import (
+	"time"
 	"fmt"
 	"sort"
 	"strings"
@@ -70,6 +71,13 @@ func emHit(k int, args []any) {
 		if c.depth == 0 && c.curEv == "a" {
 			c.depth++
 			c.em.Emit("b", "nested")
+			c.depth--
+		}
+	case "emitSame":
+		// the listener emits the very event it is being called for
+		if c.depth == 0 {
+			c.depth++
+			c.em.Emit(types.EventName(c.curEv), "nested")
 			c.depth--
 		}
 	}
@@ -167,23 +175,45 @@ func removeOne(s *emState, ev string, fn int) []*emState {
 type emSim struct {
 	st    *emState
 	calls []int
+	fired map[int]bool // once registrations that have run, in this emit or in one nested in it
+}
+
+func copyFired(m map[int]bool) map[int]bool {
+	n := make(map[int]bool, len(m)+1)
+	for k, v := range m {
+		n[k] = v
+	}
+	return n
 }
 
 var emNextID int
 
+// set by simEmit when a listener (a once listener) emits the very event it is being called for
+var emSawSame, emSawOnceSame bool
+
 // simEmit simulates one Emit on one possible table: every registration
-// present when the call starts is called once, in order; a once registration
-// removes itself; reactions run inside the listeners.
-func simEmit(react map[int]emReaction, start *emState, ev string, depth int) []emSim {
-	cur := []emSim{{st: start.clone()}}
+// present when the call starts is called once, in order (a once registration
+// that has already run, e.g. in a nested emit of the same event, is spent and
+// not called again); a once registration removes itself; reactions run inside
+// the listeners.
+func simEmit(react map[int]emReaction, start *emState, ev string, depth int, fired map[int]bool) []emSim {
+	cur := []emSim{{st: start.clone(), fired: copyFired(fired)}}
 	snapshot := append([]emReg(nil), start.regs[ev]...)
 	for _, reg := range snapshot {
 		var next []emSim
 		for _, sim := range cur {
+			if reg.Once && sim.fired[reg.ID] {
+				next = append(next, sim)
+				continue
+			}
 			st := sim.st.clone()
 			calls := append(append([]int(nil), sim.calls...), reg.Fn)
 			st.hits[reg.Fn]++
-			branches := []emSim{{st: st, calls: calls}}
+			fd := copyFired(sim.fired)
+			if reg.Once {
+				fd[reg.ID] = true
+			}
+			branches := []emSim{{st: st, calls: calls, fired: fd}}
 			if r, ok := react[reg.Fn]; ok && st.hits[reg.Fn] <= r.Limit {
 				switch r.Kind {
 				case "on", "once":
@@ -192,17 +222,27 @@ func simEmit(react map[int]emReaction, start *emState, ev string, depth int) []e
 				case "remove":
 					branches = nil
 					for _, n := range removeOne(st, r.Ev, r.Fn) {
-						branches = append(branches, emSim{st: n, calls: calls})
+						branches = append(branches, emSim{st: n, calls: calls, fired: fd})
 					}
 				case "removeAll":
 					delete(st.regs, r.Ev)
 				case "clear":
 					st.regs = map[string][]emReg{}
-				case "emitB":
-					if depth == 0 && ev == "a" {
+				case "emitB", "emitSame":
+					target := "b"
+					if r.Kind == "emitSame" {
+						target = ev
+					}
+					if depth == 0 && (r.Kind == "emitSame" || ev == "a") {
+						if r.Kind == "emitSame" {
+							emSawSame = true
+							if reg.Once {
+								emSawOnceSame = true
+							}
+						}
 						branches = nil
-						for _, inner := range simEmit(react, st, "b", depth+1) {
-							branches = append(branches, emSim{st: inner.st, calls: append(append([]int(nil), calls...), inner.calls...)})
+						for _, inner := range simEmit(react, st, target, depth+1, fd) {
+							branches = append(branches, emSim{st: inner.st, calls: append(append([]int(nil), calls...), inner.calls...), fired: inner.fired})
 						}
 					}
 				}
@@ -249,7 +289,7 @@ func genEmCase(rt *rapid.T, allowNil, allowSameOnce bool, col *Collector) ([]emO
 	for i := 0; i < rapid.IntRange(0, 2).Draw(rt, "nreact"); i++ {
 		k := rapid.SampledFrom([]int{0, 0, 1, 1, 2, 2, 3, 4, 5}).Draw(rt, "react.k")
 		react[k] = emReaction{
-			Kind:  rapid.SampledFrom([]string{"on", "once", "remove", "remove", "removeAll", "clear", "emitB"}).Draw(rt, "react.kind"),
+			Kind:  rapid.SampledFrom([]string{"on", "once", "remove", "remove", "removeAll", "clear", "emitB", "emitSame", "emitSame"}).Draw(rt, "react.kind"),
 			Ev:    rapid.SampledFrom([]string{"a", "b"}).Draw(rt, "react.ev"),
 			Fn:    rapid.SampledFrom([]int{0, 0, 1, 1, 2, 2, 3, 4, 5}).Draw(rt, "react.fn"),
 			Limit: rapid.IntRange(1, 2).Draw(rt, "react.limit"),
@@ -460,7 +500,7 @@ func runEmCase(ops []emOp, react map[int]emReaction) (fail string, stats map[str
 				var next []*emState
 				var wants []string
 				for _, s := range states {
-					for _, sim := range simEmit(react, s, o.Ev, 0) {
+					for _, sim := range simEmit(react, s, o.Ev, 0, nil) {
 						wants = append(wants, fmt.Sprint(sim.calls))
 						if fmt.Sprint(sim.calls) == fmt.Sprint(got) {
 							next = append(next, sim.st)
@@ -478,6 +518,13 @@ func runEmCase(ops []emOp, react map[int]emReaction) (fail string, stats map[str
 						}
 					}
 				}
+				if emSawSame {
+					stats["listener-emits-its-own-event"] = true
+				}
+				if emSawOnceSame {
+					stats["once-listener-emits-its-own-event"] = true
+				}
+				emSawSame, emSawOnceSame = false, false
 				if len(next) == 0 {
 					sort.Strings(wants)
 					fail = fmt.Sprintf("%s called listeners %v; the registrations present when the call started require %s (possible tables: %s)", what, got, strings.Join(uniq(wants), " or "), tables(states))
@@ -526,7 +573,7 @@ func tables(st []*emState) string {
 
 func TestC20Emitter(t *testing.T) {
 	col := NewCollector("TestC20Emitter",
-		"rapid: scripts of 1-25 emitter operations (On/Once/AddListener with 0-3 listeners incl. nil entries, RemoveListener incl. nil and unregistered, RemoveAllListeners, Clear, Emit, ListenerCount, Listeners, Len/EventNames) over 2 events and 6 distinct listener functions, up to 2 of which mutate the emitter (add/remove/removeAll/clear/nested emit) while an emit is in progress; oracle: set-of-possible-listener-tables model (which registration of a multiply registered function is removed is left open); non-trivial: a nil listener, an emit with >=2 registrations, a once registration or a mutating listener in an emit, or a removal among several registrations").Use(t)
+		"rapid: scripts of 1-25 emitter operations (On/Once/AddListener with 0-3 listeners incl. nil entries, RemoveListener incl. nil and unregistered, RemoveAllListeners, Clear, Emit, ListenerCount, Listeners, Len/EventNames) over 2 events and 6 distinct listener functions, up to 2 of which mutate the emitter (add/remove/removeAll/clear/nested emit of the other or of the very same event) while an emit is in progress; oracle: set-of-possible-listener-tables model (which registration of a multiply registered function is removed is left open); non-trivial: a nil listener, an emit with >=2 registrations, a once registration or a mutating listener in an emit, or a removal among several registrations").Use(t)
 	allowNil := !isKnown("C20", sigNilListener)
 	allowSameOnce := !isKnown("C20", sigOnceRemoves)
 	rapid.Check(t, func(rt *rapid.T) {
@@ -543,7 +590,7 @@ func TestC20Emitter(t *testing.T) {
 			rt.Fatalf("script %v reactions %v\n%s", ops, react, fail)
 		}
 	})
-	req := []string{"emit>=2", "emit-once", "mutating-listener", "remove-among-several", "ambiguous-removal"}
+	req := []string{"emit>=2", "emit-once", "mutating-listener", "remove-among-several", "ambiguous-removal", "listener-emits-its-own-event", "once-listener-emits-its-own-event"}
 	if allowNil {
 		req = append(req, "nil-listener")
 	}
@@ -571,7 +618,30 @@ func TestC20EmitterFindings(t *testing.T) {
 		col.Case(fmt.Sprint(sc), true, map[string]any{"ops": fmt.Sprint(sc), "result": fail}, "on+once-same-function")
 		demoFinding(t, col, "C20", sigOnceRemoves, fail != "", fail)
 	}
+	// a once listener that emits the very event it is being called for (run on its own goroutine with a
+	// real-time limit: when the defect is present the emit never returns)
+	for _, sc := range [][]emOp{
+		{{Kind: "once", Ev: "a", Fns: []int{1}}, {Kind: "emit", Ev: "a"}, {Kind: "count", Ev: "a"}, {Kind: "emit", Ev: "a"}},
+		{{Kind: "on", Ev: "a", Fns: []int{0}}, {Kind: "once", Ev: "a", Fns: []int{1, 2}}, {Kind: "emit", Ev: "a"}, {Kind: "emit", Ev: "a"}},
+	} {
+		react := map[int]emReaction{1: {Kind: "emitSame", Limit: 1}}
+		done := make(chan string, 1)
+		go func() {
+			fail, _ := runEmCase(sc, react)
+			done <- fail
+		}()
+		var fail string
+		select {
+		case fail = <-done:
+		case <-time.After(3 * time.Second):
+			fail = "the emit never returned: the once listener waits for itself"
+		}
+		col.Case(fmt.Sprint(sc, react), true, map[string]any{"ops": fmt.Sprint(sc), "reactions": fmt.Sprint(react), "result": fail}, "once-listener-emits-its-own-event")
+		demoFinding(t, col, "C20", sigOnceReentrant, fail != "", fail)
+	}
 }
+
+const sigOnceReentrant = "once-listener-emitting-its-own-event-deadlocks"
 
 // TestC20OnceConcurrent: a Once listener runs exactly once under concurrent emits.
 func TestC20OnceConcurrent(t *testing.T) {
